@@ -541,7 +541,9 @@ func (em *emitter) emitAssignmentNode(node *ast.Assignment) {
 		return em.emitExpr(expr, typ)
 	}
 
-	// Emit an assignment.
+	// Emit an assignment. The operands of the left side refer to the
+	// elements and fields that they denote.
+	em.operandDepth++
 	addresses := make([]address, len(node.Lhs))
 	for i, v := range node.Lhs {
 		pos := v.Pos()
@@ -635,6 +637,7 @@ func (em *emitter) emitAssignmentNode(node *ast.Assignment) {
 			panic(internalError("unexpected"))
 		}
 	}
+	em.operandDepth--
 	em.assignValuesToAddresses(addresses, node.Rhs)
 }
 
